@@ -1119,6 +1119,25 @@ def gen_s3_cases(seed, tier):
                     for dr in (range(48) if tier == 'quick' else range(256)):
                         cases.append('id=a%d rate=%s src=bytes:%s ops=%s:%s:%s' % (k, rates[2], '00' * 8 + '%02x%02x' % (strat, dr) + '61' * 12, kind, m, val or '-'))
                         k += 1
+    # the generator's own dispatch over LISTS of mutators (hook dispatch_*): first applicable mutator wins; gate open / shut,
+    # each first draw, inputs at the ends of their ranges
+    dlists = {'dm': ['offbyone+memoindex.1', 'offbyone+memoindex.0', 'memoindex.0+offbyone', 'bitflip+offbyone+memoindex.1', 'memoindex.1+offbyone', 'stringlen+memoindex.0'],
+              'di': ['bitflip+boundary', 'offbyone+bitflip', 'boundary+offbyone+bitflip', 'stringlen+offbyone', 'memoindex.0+boundary'],
+              'df': ['boundary+bitflip', 'bitflip+boundary', 'offbyone+boundary'],
+              'ds': ['stringlen+character', 'character+stringlen', 'bitflip+character'],
+              'db': ['stringlen+character', 'character+stringlen', 'offbyone+stringlen']}
+    dvals = {'dm': ['%x' % v for v in MEMOS], 'di': ['%x' % v for v in I32S], 'df': F64S, 'ds': [v or '-' for v in STRS], 'db': [v or '-' for v in BYTS]}
+    dsrcs = ['bytes:' + '00' * 8 + '%02x' % b + t for b in (0, 1, 2, 3, 7, 0xff) for t in ('00' * 12, 'ff' * 12, '0102030405060708090a0b0c')]
+    dsrcs += ['bytes:-', 'bytes:' + 'ff' * 30, 'seed:5', 'seed:77', 'seed:12345', 'seed:999999']
+    for kind in ('dm', 'di', 'df', 'ds', 'db'):
+        for ml in dlists[kind]:
+            for val in dvals[kind]:
+                for si, src in enumerate(dsrcs):
+                    if tier == 'quick' and (si + len(val) + len(ml)) % 2:
+                        continue
+                    rate = rates[2] if si % 5 else rates[si % 3 if si % 3 != 2 else 0]
+                    cases.append('id=a%d rate=%s src=%s ops=%s:%s:%s;%s:%s:%s' % (k, rate, src, kind, ml, val, kind, ml, val))
+                    k += 1
     for sidx, src in enumerate(srcs):
         ops = [pool[rng.below(len(pool))] for _ in range(nops)]
         cases.append('id=a%d rate=%s src=%s ops=%s' % (k, rates[rng.below(len(rates))], src, ';'.join(ops)))
